@@ -18,10 +18,10 @@
   What a program can observe of an object is `reads s i`: the result of `read i` in state `s` (payload
   and references, or the error).
 
-  Limits: one connection, no injected failure, no close (C11 covers those without savepoints); a
+  Limits: one connection, no injected failure, no close (C11 covers those without savepoints; the
+  harness also runs savepoint programs with conflicts and failing commits against the model).  A
   savepoint made before the connection joined the transaction is an `AbortSavepoint` — rolling back to
-  it is `Connection.abort`, covered by the invariant (`Good12`) and the harness, while `rollback_exact`
-  is stated for savepoints of the joined connection.  An object that lost its state (open finding
+  it is `Connection.abort`; `rollback_exact` covers both kinds.  An object that lost its state (open finding
   C11:stored-new-object-ghostified-on-abort, also reachable through a rollback) reads as an error; the
   theorems speak about the objects that belong to the connection.
 -/
@@ -54,24 +54,31 @@ theorem savepoint_keeps_reads (bound : Nat) (s : State) (hr : Reachable bound s)
   | none => rw [ho] at hjar; cases hjar
   | some k => exact (h i k ho).1
 
-/-- **rollback_exact.**  Let a savepoint be made in any reachable state `s1` (by the joined connection;
-    it gets the number `n = s1.sps.length`), let `a` be the state right after it, and let ANY program
-    segment `ops` run that stays inside the transaction (modifications, new objects, further
-    savepoints, rollbacks to this or other savepoints).  If `rollback n` then succeeds (the savepoint
-    was not invalidated by a rollback to an older one), every object that belonged to the connection at
-    the savepoint reads exactly as it did in `a`. -/
+/-- **rollback_exact.**  Let a savepoint be made in any reachable state `s1` (it gets the number
+    `n = s1.sps.length`; if the connection has not joined the transaction yet it is an `AbortSavepoint`),
+    let `a` be the state right after it, and let ANY program segment `ops` run that stays inside the
+    transaction (modifications, new objects, further savepoints, rollbacks to this or other
+    savepoints).  If `rollback n` then succeeds (the savepoint was not invalidated by a rollback to an
+    older one), every object that belonged to the connection at the savepoint reads exactly as it did
+    in `a`, and every object that did not belong to it then (in particular every object created after
+    the savepoint) belongs to no database. -/
 theorem rollback_exact (bound : Nat) (s1 : State) (hr : Reachable bound s1)
-    (hj : s1.needsToJoin = false) (hok : (step bound s1 .savepoint).2 = .ok) (ops : List Op) (s : State)
+    (hok : (step bound s1 .savepoint).2 = .ok) (ops : List Op) (s : State)
     (hrun : runTxn bound (stepH bound s1 .savepoint) ops = some s)
     (hrb : (step bound s (.rollback s1.sps.length)).2 = .ok) :
-    ∀ i, ((stepH bound s1 .savepoint).objs i).jar = true →
-      reads (stepH bound s (.rollback s1.sps.length)) i = reads (stepH bound s1 .savepoint) i :=
-  rollback_exact_prog (reachable_good hr) hj bound hok ops hrun hrb
+    (∀ i, ((stepH bound s1 .savepoint).objs i).jar = true →
+      reads (stepH bound s (.rollback s1.sps.length)) i = reads (stepH bound s1 .savepoint) i) ∧
+    (∀ i, ((stepH bound s1 .savepoint).objs i).jar = false →
+      ((stepH bound s (.rollback s1.sps.length)).objs i).jar = false ∧
+      ((stepH bound s (.rollback s1.sps.length)).objs i).oid = none) := by
+  cases hj : s1.needsToJoin with
+  | false => exact rollback_exact_prog (reachable_good hr) hj bound hok ops hrun hrb
+  | true => exact rollback_exact_unjoined_prog (reachable_good hr) hj bound ops hrun hrb
 
 /-- **rollback_repeatable.**  Rolling back to the same savepoint a second time — after any further
     program segment inside the transaction — restores the same state again. -/
 theorem rollback_repeatable (bound : Nat) (s1 : State) (hr : Reachable bound s1)
-    (hj : s1.needsToJoin = false) (hok : (step bound s1 .savepoint).2 = .ok)
+    (hok : (step bound s1 .savepoint).2 = .ok)
     (ops2 ops3 : List Op) (s2 s3 : State)
     (hrun2 : runTxn bound (stepH bound s1 .savepoint) ops2 = some s2)
     (hrb2 : (step bound s2 (.rollback s1.sps.length)).2 = .ok)
@@ -81,8 +88,7 @@ theorem rollback_repeatable (bound : Nat) (s1 : State) (hr : Reachable bound s1)
       reads (stepH bound s3 (.rollback s1.sps.length)) i = reads (stepH bound s1 .savepoint) i ∧
       reads (stepH bound s3 (.rollback s1.sps.length)) i =
         reads (stepH bound s2 (.rollback s1.sps.length)) i := by
-  have hg := reachable_good hr
-  have h2 := rollback_exact_prog hg hj bound hok ops2 hrun2 hrb2
+  have h2 := (rollback_exact bound s1 hr hok ops2 s2 hrun2 hrb2).1
   have hrun : runTxn bound (stepH bound s1 .savepoint) (ops2 ++ [.rollback s1.sps.length] ++ ops3)
       = some s3 := by
     rw [runTxn_append, runTxn_append, hrun2]
@@ -91,7 +97,7 @@ theorem rollback_repeatable (bound : Nat) (s1 : State) (hr : Reachable bound s1)
     simp only [Option.bind_some]
     rw [stepH_of_notFailed bound s2 (.rollback s1.sps.length) (txnRollback_notFailed s2 _)] at hrun3
     exact hrun3
-  have h3 := rollback_exact_prog hg hj bound hok _ hrun hrb3
+  have h3 := (rollback_exact bound s1 hr hok _ s3 hrun hrb3).1
   intro i hjar
   exact ⟨h3 i hjar, (h3 i hjar).trans (h2 i hjar).symm⟩
 
